@@ -40,6 +40,11 @@ Record config := mkConfig {
   cf_programs : list pconfig
 }.
 
+(* Documented semantics, independent of how internal/config stores its index:
+   a counter is approved for a program iff it is an expansion of one of THAT
+   program's Counters entries; a stack iff its name (text before the first
+   newline) is one of THAT program's Stacks entries.  The two tables are
+   separate: a stack name is not an approved counter and vice versa. *)
 Definition mem (x : bytes) (l : list bytes) : bool := existsb (beq x) l.
 Definition has_program (cfg : config) (n : bytes) : bool :=
   existsb (fun p => beq n (pc_name p)) (cf_programs cfg).
